@@ -140,11 +140,13 @@ pub fn run(ctx: &Ctx) -> i32 {
         for (ki, &K) in ks.iter().enumerate() {
             let T = if kp > 20000 { 1 } else { *rng.pick(&[1usize, 3]) };
             // default route for every K'; the other routes on a stratified subset in quick
-            let stratum = quick && !(ri % 6 == (ctx.seed() % 6) as usize || kp <= 120);
+            // (K' = 1002, 1285 and 2005 are always in: the dense back-end there packs more than 64 inactivated
+            // columns, i.e. several words, per row - dense_max permitting)
+            let stratum = quick && !(ri % 6 == (ctx.seed() % 6) as usize || kp <= 120 || kp == 1002 || kp == 1285 || kp == 2005);
             let mut encs = vec![];
             for route in 0..6 {
                 let dense = route == 3 || route == 5;
-                if dense && kp > dense_max {
+                if dense && kp > dense_max && !(quick && (kp == 1002 || kp == 1285 || kp == 2005)) {
                     continue;
                 }
                 if route != 0 && (stratum || (quick && ki == 1 && route > 2)) {
